@@ -1,6 +1,6 @@
 """C09 - upset/downset traversals yield exactly the filters/ideals, once, in rank order."""
 
-from vlib import gen, lib, tablecheck
+from vlib import gen, latcheck, lib, tablecheck
 from vlib.latcheck import Built, pairs, multisets
 from vlib.oracle import positions
 
@@ -38,6 +38,17 @@ def check_one(case, ctx, deep):
         dindex = ref.dindex()
         ups = [ref.upset(i) for i in range(k)]
         downs = [sorted(ref.downset(i), key=dindex.__getitem__) for i in range(k)]
+        if rep == 0:
+            # several live traversals of the same concept, BEFORE any complete one (nested loops over an upset are ordinary user code)
+            for i in sorted({0, k - 1, k // 2, rnd.randrange(k)}):
+                q = lambda: {'table': plain, 'seeds': [list(positions(cs[i][0]))], 'interleaved': True}
+                for name, make, want in (('upset', by[i].upset, ups[i]), ('downset', by[i].downset, downs[i]),
+                                         ('upset_union', lambda: lat.upset_union([by[i], by[0]]), sorted(set(ups[i]) | set(ups[0])))):
+                    seqs = ctx.call(name + '/interleaved', q, latcheck.interleaved, make)
+                    for which, seq in zip(('first of two alternating', 'second of two alternating', 'outer of nested', 'inner of nested'), seqs):
+                        got = [b.idx(c) for c in seq]
+                        ctx.check(got == want, name + '/interleaved', q,
+                                  lambda: f'{name} as the {which} iterator(s) of one concept: indexes {got}, want {want}')
         for i in range(k):
             q = lambda: {'table': plain, 'seeds': [list(positions(cs[i][0]))]}
             nt = has_diamond(ref, ups[i], True) or has_diamond(ref, downs[i], False)
